@@ -40,13 +40,14 @@ ASSUMPTIONS = [
 MINIMUMS = {
     'quick': {'evaluations': 4000, 'changed:materialize_defaults': 400, 'changed:with_defaults_trimmed': 150,
               'changed:replace_unconfigured_partials': 50, 'changed:unintern_tuples': 100,
-              'changed:materialize_tags': 50, 'inline_cases': 100, 'dataclass_conversions': 150,
+              'changed:materialize_tags': 50, 'inline_cases': 100, 'inline_with_argument_shared_with_the_rest_of_the_tree': 15, 'dataclass_conversions': 150,
               'builds_compared': 3000},
     'thorough': {'evaluations': 1000},
 }
 
 FNS = [kinds.node, kinds.node2, kinds.two, kinds.three, kinds.Base, kinds.Mid, kinds.target3,
        kinds.DC, kinds.DCKwOnly, kinds.DCFamilyBase, kinds.DCFamilySub, kinds.DCFamilySwitched,
+       kinds.DCInitVar, kinds.DCWithOwnInit,
        kinds.mutdef, kinds.prefdef, kinds.booldef, kinds.booldef_twin, kinds.tagged_fn, kinds.PosInit,
        sigs.g_posonly_defaults, sigs.g_posonly_mixed, sigs.g_a1_b2_va_k_vk, sigs.g_a_b_c3_k4_j]
 LEAVES = [0, 1, True, False, 1.0, 0.0, 2, 3, 'a', '', None, (1, 2), (), ('x', (3, 4)), 2.5,
@@ -313,7 +314,8 @@ def run_main(spec, acc):
 
 def run_inline(spec, acc):
   for _, rng in acc.cases(spec):
-    which = rng.choice(['outer', 'outer', 'outer_pos', 'direct', 'direct_pos', 'direct_po_gap'])
+    which = rng.choice(['outer', 'outer', 'outer_pos', 'direct', 'direct_pos', 'direct_po_gap',
+                        'direct_shared_argument', 'direct_shared_argument'])
     acc.obs('inline_cases')
     v = rng.choice([1, 'v', (1, 2)])
     try:
@@ -324,6 +326,15 @@ def run_inline(spec, acc):
       elif which == 'direct':
         cfg = fdl.Config(kinds.three, a=fdl.Config(acfns.pipeline, v, size=rng.choice([1, 9])),
                          b=fdl.Config(acfns.pipeline, name='k', flag=v))
+      elif which == 'direct_shared_argument':
+        # an argument of the inlined call is a Buildable / list that the tree uses elsewhere too
+        tok = rng.choice([lambda: fdl.Config(kinds.two, x=v), lambda: [fdl.Config(kinds.Base, x=v)],
+                          lambda: fdl.Partial(kinds.two, y=v)])()
+        inner = rng.choice([lambda: fdl.Config(acfns.pipeline, tok, size=2),
+                            lambda: fdl.Config(acfns.pipeline, 'n', flag=tok),
+                            lambda: fdl.Config(acfns.pipeline_pos, 'n', 3, tok, a=tok)])()
+        cfg = fdl.Config(kinds.three, a=inner, b=tok, c=[tok])
+        acc.obs('inline_with_argument_shared_with_the_rest_of_the_tree')
       elif which == 'direct_po_gap':
         inner = fdl.Config(acfns.pipeline_po, v)
         inner[2] = 500                      # later positional-only set, earlier one left unset
